@@ -78,7 +78,13 @@ func (s *Solver) checkOneShot(asserts []*Term, wantModel bool) (Result, Model, e
 	}
 	cmd := exec.Command(argv[0], av...)
 	cmd.Stdin = strings.NewReader(sb.String())
+	wd := time.AfterFunc(2*s.timeout+3*time.Second, func() {
+		if cmd.Process != nil {
+			cmd.Process.Kill()
+		}
+	})
 	out, _ := cmd.CombinedOutput()
+	wd.Stop()
 	text := string(out)
 	parts := strings.SplitN(text, "CHK", 2)
 	res := Unknown
@@ -220,14 +226,24 @@ func (s *Solver) Check(asserts []*Term, wantModel bool) (Result, Model, error) {
 	if s.LogFile != nil {
 		io.WriteString(s.LogFile, script)
 	}
+	if d := os.Getenv("VERIF_DUMPALL"); d != "" {
+		n := atomic.AddInt64(&dumpCounter, 1)
+		os.WriteFile(fmt.Sprintf("%s/q-%06d.smt2", d, n), []byte(script), 0o644)
+	}
 	if _, err := io.WriteString(s.in, script+"(echo \"CHK\")\n"); err != nil {
 		s.dead = true
 		return Unknown, nil, err
 	}
+	// hard deadline: the soft per-query limit (-t) is not honoured inside some
+	// preprocessing phases; a solver that overruns it by far is killed, the query
+	// is answered unknown and the next query gets a fresh process
+	wd := time.AfterFunc(2*s.timeout+3*time.Second, func() { s.cmd.Process.Kill() })
 	lines, err := s.readUntil("CHK")
+	wd.Stop()
 	if err != nil {
 		s.dead = true
-		return Unknown, nil, fmt.Errorf("solver died: %v (%v)", err, lines)
+		go s.cmd.Wait()
+		return Unknown, nil, fmt.Errorf("solver died or was killed at the hard deadline: %v (%v)", err, lines)
 	}
 	res := Unknown
 	var errline string
